@@ -203,10 +203,18 @@ def variable_variants(deps):
         ("unset+model", {"u": UNSET, "m": Outer(innerList=[Inner(someValue=3), Inner(color=Color.RED)]), "l": [Inner(someValue=None)], "n": None},
          {"m": {"innerList": [{"someValue": 3}, {"color": "RED"}]}, "l": [{"someValue": None}], "n": None}),
         ("all-unset", {"u": UNSET}, {}),
+        ("long-query", {"a": 1}, {"a": 1}),  # with a document of ~14k characters (see query_for)
     ]
 
 
 QUERY = "subscription S($a: Int) { counter(a: $a) }"
+LONG_QUERY = "subscription S($a: Int) { " + " ".join("alias%d: counter(a: $a)" % i for i in range(450)) + " }"
+
+
+def query_for(var_variant) -> str:
+    """Most scripts use the short document; the `long-query` variant a document far longer than any attribute limit a tracing backend imposes."""
+    return LONG_QUERY if var_variant[0] == "long-query" else QUERY
+
 
 _HTTP = None
 
@@ -237,7 +245,7 @@ async def run_script(deps, variant: str, kinds: List[str], frames: List[str], in
     outcome = ("end", None)
     try:
         try:
-            async for d in client.execute_ws(QUERY, "S", var_variant[1], **(connect_kwargs or {})):
+            async for d in client.execute_ws(query_for(var_variant), "S", var_variant[1], **(connect_kwargs or {})):
                 yields.append(d)
         except deps.exceptions.GraphQLClientInvalidMessageFormat as e:
             outcome = ("invalid", e) if type(e) is deps.exceptions.GraphQLClientInvalidMessageFormat else ("other", repr(e))
@@ -306,8 +314,8 @@ def judge(deps, variant, kinds, frames, init_payload, var_variant, obs, extra_he
         p = s.get("payload", {})
         if not isinstance(s.get("id"), str) or not s.get("id"):
             bad("subscribe-id", "id=%r" % (s.get("id"),))
-        if p.get("query") != QUERY or p.get("operationName") != "S":
-            bad("subscribe-payload", "payload=%r" % (p,))
+        if p.get("query") != query_for(var_variant) or p.get("operationName") != "S":
+            bad("subscribe-payload", "payload=%s" % (repr(p)[:600],))
         want_vars = var_variant[2]
         got_vars = p.get("variables")
         if not ((want_vars in (None, {}) and got_vars in (None, {})) or got_vars == want_vars):
